@@ -51,7 +51,7 @@ IsPending(st) == st \in {"pending-install", "pending-upgrade", "pending-rollback
 
 InstRank(k) == CASE k = "IncludedCRD" -> 0 [] k = "ConfigMap" -> 11 [] k = "CustomResourceDefinition" -> 15 [] k = "Service" -> 24 [] k = "Job" -> 32
                  [] k = "Gadget" -> 101 [] k = "Widget" -> 102 [] OTHER -> 200
-UninstRank(k) == CASE k = "Service" -> 6 [] k = "Job" -> 8 [] k = "ConfigMap" -> 28
+UninstRank(k) == CASE k = "Service" -> 6 [] k = "Job" -> 8 [] k = "CustomResourceDefinition" -> 23 [] k = "ConfigMap" -> 28
                    [] k = "Gadget" -> 101 [] k = "Widget" -> 102 [] OTHER -> 200
 
 \* ids are "r1", "r2", ... : order by the string (TLC has no string <, so use an explicit table)
@@ -81,7 +81,7 @@ Absent  == [f1 |-> "-", f2 |-> "-", own |-> "absent", pol |-> "none"]
 HookObj == [f1 |-> "-", f2 |-> "-", own |-> "none", pol |-> "none"]
 NewObj(m) == [f1 |-> m.f1, f2 |-> m.f2, own |-> "me", pol |-> m.pol]
 
-Typed(kind) == kind \in {"ConfigMap", "Service"}
+Typed(kind) == kind \in {"ConfigMap", "Service", "CustomResourceDefinition"}
 
 (* createPatch: typed kinds (and unstructured ones under UpdateThreeWayMerge) get a   *)
 (* three-way merge of (old manifest, new manifest, live); other unstructured kinds a  *)
